@@ -93,7 +93,9 @@ pub fn run_mlar<S: AsRef<OsStr>>(bin: &Path, cwd: &Path, args: &[S], stdin: Opti
         let mut si = child.stdin.take().unwrap();
         let _ = si.write_all(data);
     }
+    crate::util::beat();
     let out = child.wait_with_output().expect("wait mlar");
+    crate::util::beat();
     RunOut { code: out.status.code().unwrap_or(-1), stdout: out.stdout, stderr: out.stderr }
 }
 
